@@ -88,7 +88,7 @@ func (prop) Describe() core.Description {
 		RealComponents: []string{"go-geom root package: Bounds (NewBounds, Extend, Min, Max, Layout, IsEmpty, Overlaps, OverlapsPoint, Polygon, Clone), T.Bounds() of all seven types", "encoding/geojson (Marshal with EncodeGeometryWithBBox)"},
 		StubComponents: []string{"the network between message source and replicas (seeded delivery order and duplication)"},
 		FaultKinds:     []string{"reordered-delivery", "duplicate-delivery"},
-		Probes:         []string{"probe:xym-then-xyz", "probe:xyz-then-xym", "probe:xym-into-xyzm", "probe:xyz-into-xyzm", "probe:nested-collection-message", "probe:collection-message", "probe:empty-message-promotes-layout", "probe:mixed-layout-collection-bounds", "probe:push-into-nested-collection-after-bounds", "probe:layout>4-bounds", "probe:returned-polygon-scribbled", "probe:adjacent-boxes", "probe:overlap-true", "probe:overlap-false", "probe:point-overlap-true", "probe:point-overlap-false", "probe:geojson-bbox-checked"},
+		Probes:         []string{"probe:xym-then-xyz", "probe:xyz-then-xym", "probe:xym-into-xyzm", "probe:xyz-into-xyzm", "probe:nested-collection-message", "probe:collection-message", "probe:empty-message-promotes-layout", "probe:mixed-layout-collection-bounds", "probe:push-into-nested-collection-after-bounds", "probe:layout>4-bounds", "probe:returned-polygon-scribbled", "probe:adjacent-boxes", "probe:overlap-true", "probe:overlap-false", "probe:point-overlap-true", "probe:point-overlap-false", "probe:geojson-bbox-checked", "probe:geojson-bbox-with-crs"},
 	}
 }
 
@@ -589,6 +589,34 @@ func (prop) Execute(scAny any, phase string, log *core.Log) core.Result {
 				}
 			})
 			res.Count("probe:returned-polygon-scribbled", 1)
+		}
+		// A bounding box that was asked for is in the document whenever the
+		// document is produced, whatever other options stand next to it (for
+		// every geometry, empty ones too: those have no box to write and the
+		// call has to say so).
+		if i < 3 {
+			var js2 []byte
+			var jerr2 error
+			crs := &geojson.CRS{Type: "name", Properties: map[string]interface{}{"name": "EPSG:4326"}}
+			if p := core.Guard(func() {
+				js2, jerr2 = geojson.Marshal(g, geojson.EncodeGeometryWithBBox(), geojson.EncodeGeometryWithCRS(crs))
+			}); p != "" {
+				res.Fail("panic", "panic:geojson-bbox:"+core.PanicSite(p), "geojson.Marshal with a bounding box and a CRS panicked on %s: %s", m, p)
+				return res
+			}
+			res.Steps++
+			if jerr2 == nil {
+				var doc map[string]json.RawMessage
+				if err := json.Unmarshal(js2, &doc); err != nil {
+					res.Fail("geojson-bbox-wrong", "geojson-bbox-wrong:not-json", "geojson.Marshal with a bounding box and a CRS produced invalid JSON %s: %v", js2, err)
+					return res
+				}
+				if bb, ok := doc["bbox"]; !ok || string(bb) == "null" {
+					res.Fail("geojson-bbox-wrong", "geojson-bbox-missing:"+m.T, "geojson.Marshal of %s with EncodeGeometryWithBBox and EncodeGeometryWithCRS reported success, and the document has no bounding box: %s", m, js2)
+					return res
+				}
+				res.Count("probe:geojson-bbox-with-crs", 1)
+			}
 		}
 		// the GeoJSON bounding box is the same box (non-empty geometries only:
 		// an empty box has no JSON representation)
